@@ -765,6 +765,8 @@ def propagate_new_locals(facts, stable=None):
                 ty = ds[0].get('ty') or ''
                 if name in mutated or not (ty.startswith('const ') or 'StringPiece' in ty or 'iterator' in ty):
                     continue        # an object built here and possibly changed later is not a named value
+            if name in mutated and not (ds[0].get('ty') or '').rstrip().endswith('*'):
+                continue        # an object changed through its own member calls (`++it` of a class iterator) is a variable
             if any(x.get('k') == 'var' and str(x.get('n', '')).startswith(('__begin', '__range', '__end')) for x in _walk(init)):
                 continue        # the element variable of a range-for is not a hoisted expression
             # nothing the initialiser reads may be one of the variables being replaced in a cycle
